@@ -251,7 +251,19 @@ impl MT935 {
                 }
 
                 // Extract currency (first 3 characters)
-                let currency = &value[..3];
+                let Some(currency) = value.get(..3) else {
+                    errors.push(SwiftValidationError::format_error(
+                        "T26",
+                        "23",
+                        &value,
+                        "3!a[2!n]11x",
+                        &format!(
+                            "Sequence {}: Field 23 must start with a 3-letter currency code",
+                            idx + 1
+                        ),
+                    ));
+                    continue;
+                };
 
                 // Validate currency is alphabetic
                 if !currency.chars().all(|c| c.is_ascii_alphabetic()) {
